@@ -9,11 +9,55 @@ import sys
 import time
 
 VERIF = os.path.dirname(os.path.dirname(os.path.abspath(__file__)))
-MODULES = ["contracts.c04_periods", "contracts.engine", "contracts.c03_requests", "contracts.c06_parameters", "contracts.c16_set_input", "contracts.c13_clone", "contracts.c14_reforms"]
+MODULES = ["contracts.c04_periods", "contracts.engine", "contracts.c03_requests", "contracts.c06_parameters", "contracts.c16_set_input", "contracts.c13_clone", "contracts.c14_reforms", "contracts.c18_engine", "contracts.c17_storage"]
 
 CAL_THEORY = "calendar (OM/DIM opaque, lemma instances; closed forms = Hinnant days-from-civil), validated against datetime"
 
 PROPS = {
+    "C01": {
+        "theories": ["engine model: callees of the function under test enter through recording call-site contracts; postconditions speak about the call sequence, the stack, the trace tree and what was stored", "storage view stored(period)"],
+        "lemmas": [],
+        "validations": [],
+        "assumptions": [
+            "user formulas are pure functions of the values their reads return (assumed); the claim is that the engine functions apply them as the statement says, not that any rule system was run",
+            "array casts keep values (floats are reals); enum encoding is C15's business and enters as a recorded call",
+            "formula start dates are concrete cases (none / one / two formulas, with and without end date); the requested period is symbolic",
+        ],
+        "not_decided": ["projections / aggregations inside formulas (C10)", "parameters (C06/C07)", "enum default arrays"],
+    },
+    "C02": {
+        "theories": ["engine model: callees of the function under test enter through recording call-site contracts; postconditions speak about the call sequence, the stack, the trace tree and what was stored"],
+        "lemmas": [],
+        "validations": [],
+        "assumptions": ["stack shapes up to 3 / 5 frames are enumerated for the cycle and spiral functions (periods symbolic)"],
+        "bounded": ["_check_for_cycle / invalidate_spiral_variables: stack shapes enumerated up to 3 / 5 frames"],
+        "not_decided": ["order-independence for rule systems without self-dependency is an argument over the _calculate contract (a stored value is only ever the cast formula result or an input), not a discharged obligation",
+                        "the closing clause (every value still readable equals what a fresh simulation would compute from the other readable values) is a whole-history property: not decided by any contract here"],
+    },
+    "C17": {
+        "theories": ["engine model (recording call-site contracts) + storage view: stored(period) = in-memory entry if any, else the array in the file registered for the period"],
+        "lemmas": [],
+        "validations": ["numpyio"],
+        "assumptions": [
+            "numpy.save / numpy.load round trip per dtype (assumed; validated natively for bool, int32, float32, datetime64[D] and uint8 enum arrays; known to fail for object/str arrays)",
+            "file names: os.path.join(dir, str(period)) names one file per period (injectivity of str(period) is C05's claim, assumed here)",
+            "psutil.virtual_memory().percent and the occupation threshold are arbitrary reals (both storage branches explored)",
+            "user formulas are pure; tracing only observes",
+        ],
+        "not_decided": ["byte-level content of files; string (object dtype) variables cannot be read back from disk with allow_pickle=False (recorded under known findings when claimed)"],
+    },
+    "C18": {
+        "theories": ["engine model: callees of the function under test enter through recording call-site contracts; postconditions speak about the call sequence, the stack, the trace tree and what was stored"],
+        "lemmas": [],
+        "validations": [],
+        "assumptions": [
+            "user formulas do not mutate engine state before raising; single thread",
+            "callee behaviour is over-approximated: each recorded callee may return or raise in every way its contract lists, and all combinations are explored",
+            "stack shapes: 0..2 outer frames for calculate; up to 3-5 frames for the cycle/spiral functions (periods symbolic)",
+        ],
+        "bounded": ["_check_for_cycle / invalidate_spiral_variables: stack shapes up to 3 / 5 frames enumerated (frame periods symbolic)"],
+        "not_decided": ["state mutated by a user formula before it raises"],
+    },
     "C14": {
         "theories": ["heap model with concrete identities; frame = snapshot of every object reachable from the base system"],
         "lemmas": [],
